@@ -676,7 +676,7 @@ class PKey:
             else:
                 raise SSHException(
                     "unknown cipher `{}` used in private key file".format(
-                        cipher.decode("utf-8")
+                        cipher.decode("utf-8", errors="replace")
                     )
                 )
             # Encrypted private key.
